@@ -35,15 +35,35 @@ pub struct SchedState {
 pub struct GateH {
     pub st: Option<Arc<Mutex<SchedState>>>,
     pub task: usize,
+    /// worker-process mode: announce the label on stdout and wait for a line on stdin
+    pub pipe: bool,
 }
 
 impl GateH {
     pub fn none() -> Self {
-        GateH { st: None, task: 0 }
+        GateH { st: None, task: 0, pipe: false }
+    }
+
+    pub fn pipe() -> Self {
+        GateH { st: None, task: 0, pipe: true }
     }
 
     /// Park at `label` until the scheduler releases this task. Without a scheduler: proceed.
     pub fn pass(&self, label: String) -> GateFut {
+        if self.pipe {
+            // the scheduler lives in the parent process: tell it where we are and block until it
+            // lets us go
+            use std::io::{BufRead, Write};
+            let mut o = std::io::stdout();
+            let _ = writeln!(o, "P {label}");
+            let _ = o.flush();
+            let mut line = String::new();
+            let n = std::io::stdin().lock().read_line(&mut line).unwrap_or(0);
+            if n == 0 {
+                // the parent is gone
+                std::process::exit(3);
+            }
+        }
         GateFut {
             st: self.st.clone(),
             task: self.task,
@@ -101,6 +121,7 @@ impl<T> Run<T> {
             .map(|task| GateH {
                 st: Some(st.clone()),
                 task,
+                pipe: false,
             })
             .collect();
         (
